@@ -210,7 +210,8 @@ def main(a):
         # (VERIF_KANI_PAR_CFGS at a time; the cores are shared out between them)
         from concurrent.futures import ThreadPoolExecutor as _TPE
         groups = sorted(by_cfg.items(), key=lambda kv: -max(h.declared_timeout for h in kv[1]))
-        par = max(1, min(len(groups), int(os.environ.get("VERIF_KANI_PAR_CFGS", "3"))))
+        # (a runner that executes several checks at once - VERIF_KANI_STREAMS > 1 - keeps one configuration at a time per check)
+        par = max(1, min(len(groups), int(os.environ.get("VERIF_KANI_PAR_CFGS", "1" if streams > 1 else "3"))))
         per_group_jobs = max(2, min(kani_engine.MAX_JOBS, (NCPU - 2) // par))
         scratches = []
 
